@@ -188,6 +188,9 @@ pub fn c19(seed: u64, n: usize) {
         with_off(&off.replace("deg(-90.0)", "deg(-90.0")), with_off(&off.replace("deg(-90.0)", "deg(")), with_off(&off.replace("deg(-90.0)", "\"deg(90\u{b0}\"")),
         with_off(&off.replace("deg(180.0)", "deg(180.0")), with_off(&off.replace("deg(-90.0)", "deg(4")), with_off(&off.replace("deg(-90.0)", "deg(x)")),
         with_off("opw_kinematics_joint_offsets: [0, 0, 0]"), base.replace("a1:", "a9:"),
+        // YAML spellings of the special floats are reals for the lexer but not for the number parser
+        with_off(&off.replace("deg(-90.0)", ".inf")), with_off(&off.replace("deg(-90.0)", "-.inf")), with_off(&off.replace("deg(-90.0)", ".nan")),
+        with_off(&off.replace("deg(180.0)", ".NaN")), with_off(&off.replace("deg(180.0)", "+.inf")), with_off(&off.replace("deg(180.0)", ".Inf")),
         base.replace("opw_kinematics_joint_sign_corrections: [1,1,1,1,1,1]", "opw_kinematics_joint_sign_corrections: [1,1,1,1]"),
     ];
     for s in &must { emit_yaml("malformed/must-reject", s.as_bytes(), None); }
